@@ -433,6 +433,9 @@ impl MDom {
                 if doc_own_child {
                     e.fail = vec![Exc::Hierarchy, Exc::NoModification];
                 }
+                if self.unrepresentable_move(*p, *new) {
+                    e.any_error = true;
+                }
                 e
             }
             Op::Remove(p, c) => {
@@ -850,7 +853,17 @@ impl MDom {
         if doc_own_child {
             e.fail = vec![Exc::Hierarchy, Exc::NoModification];
         }
+        if self.unrepresentable_move(p, new) {
+            e.any_error = true;
+        }
         e
+    }
+
+    /// a Text node whose data an attribute can hold and element content cannot ("]]>", written in an
+    /// attribute value) is moved out of its attribute: DOM Level 1 has no exception for it, the
+    /// serialization could not say it; success and an (atomic) refusal are both accepted
+    fn unrepresentable_move(&self, p: usize, new: usize) -> bool {
+        self.kind(new) == Kind::Text && self.kind(p) != Kind::Attr && !representable(Kind::Text, &self.nodes[new].value)
     }
 
     /// canonical dump of the structural state (handles as numbers); `extra` appends per-node text
